@@ -63,6 +63,9 @@ func nearMissKeys(g *Gen, tb *Table) []*Val {
 		add(" " + s[:len(s)-1])
 		add(strings.ToLower(s))
 	}
+	for _, k := range []string{"-12", "-01", "+12", " 12", "1e1", "0x1", "-1 ", "1_0", "٠١٢"[:3]} {
+		add(k)
+	}
 	add("")
 	add("   ")
 	add("999")
@@ -77,10 +80,42 @@ func init() {
 			reps = 6
 		}
 		keys, unknown := 0, 0
+		// an application may register its own body type BEFORE the library has looked anything up: do that first, in every
+		// table, and require (below) that every pinned key still resolves and that the custom key resolves to what was registered
+		custom := map[int]*Val{}
+		if len(tableRegFns) == len(schema.Tables) {
+			for _, tb := range schema.Tables {
+				if tableRegFns[tb.ID] == nil || len(tb.Entries) == 0 {
+					continue
+				}
+				ty := tb.Entries[0].Ty
+				if tb.KeyKind == "str" {
+					tableRegFns[tb.ID]("ZZ9", func() codec.BinaryCodec { return typeCtors[ty]().(codec.BinaryCodec) })
+					custom[tb.ID] = &Val{K: 's', S: []byte("ZZ9")}
+				} else {
+					tableRegFns[tb.ID](uint64(0x7FF0), func() codec.BinaryCodec { return typeCtors[ty]().(codec.BinaryCodec) })
+					custom[tb.ID] = &Val{K: 'n', N: 0x7FF0}
+				}
+			}
+		}
 		for _, t := range schema.Types {
 			for i, op := range t.fieldOps() {
 				if op.K != "union" {
 					continue
+				}
+				if ck := custom[op.Tbl]; ck != nil {
+					// the custom key selects the custom body type, both ways
+					tbc := schema.Tables[op.Tbl]
+					v := g.msgWithKey(t.ID, tbc.Entries[0], true)
+					v.Fs[op.Key] = ck
+					r := goEnc(v, nil, BufMode{})
+					if r.Class == "ok" {
+						d := goDec(t.ID, r.Appended, BufMode{})
+						if d.Class != "ok" || d.Val.Fs[i].K != 'm' || d.Val.Fs[i].Ty != tbc.Entries[0].Ty {
+							o.violate(Violation{Property: "C12", Kind: "direct", What: fmt.Sprintf("a body type registered by the application under a new key of %s.%s is not used by the decoder (%s)", tbc.Pkg, tbc.Lookup, d.Class),
+								Case: "enc - " + v.String(), Key: "custom:" + tbc.Pkg + "." + tbc.Lookup})
+						}
+					}
 				}
 				tb := schema.Tables[op.Tbl]
 				encG := op.G
